@@ -4639,8 +4639,9 @@ impl<'a, E: quiver_core::effects::Effect> Compiler<'a, E> {
             // Verify it's a function
             match self.program.lookup_type(func_type) {
                 Some(Type::Callable { result, .. }) => {
-                    self.codegen.add_instruction(Instruction::TailCall(false));
-                    Ok(*result)
+                    let result = *result;
+                    self.emit_named_tail_call();
+                    Ok(result)
                 }
                 _ => Err(Error::TypeMismatch {
                     expected: "function".to_string(),
@@ -4683,8 +4684,22 @@ impl<'a, E: quiver_core::effects::Effect> Compiler<'a, E> {
 
         // Stack: [function, argument] -> [argument, function], as the tail call expects.
         self.codegen.add_instruction(Instruction::Rotate(2));
-        self.codegen.add_instruction(Instruction::TailCall(false));
+        self.emit_named_tail_call();
         Ok(result)
+    }
+
+    /// Emit the transfer of control for `^f` / `^~` (stack: [argument, function]). Inside a
+    /// function this is a tail call that reuses the frame. At the top level there is no frame to
+    /// reuse that is the caller's alone: the top-level frame of a persistent (REPL) process holds
+    /// the session's variables, which a frame-replacing tail call would discard - so there it
+    /// is an ordinary call.
+    fn emit_named_tail_call(&mut self) {
+        let in_function = self.scopes.iter().any(|s| s.kind == ScopeKind::Function);
+        if in_function {
+            self.codegen.add_instruction(Instruction::TailCall(false));
+        } else {
+            self.codegen.add_instruction(Instruction::Call);
+        }
     }
 
     fn compile_builtin(&mut self, name: &str) -> Result<usize, Error> {
